@@ -7,6 +7,7 @@ package pkcs12
 import (
 	"errors"
 	"unicode/utf16"
+	"unicode/utf8"
 )
 
 // bmpString returns s encoded in UCS-2 with a zero terminator.
@@ -17,6 +18,11 @@ func bmpString(s string) ([]byte, error) {
 	//  - non-BMP characters are encoded in UTF 16 by using a surrogate pair of 16-bit codes
 	//	  EncodeRune returns 0xfffd if the rune does not need special encoding
 	//  - the above RFC provides the info that BMPStrings are NULL terminated.
+
+	if !utf8.ValidString(s) {
+		// ranging over s would turn every invalid byte into U+FFFD, making different strings equal
+		return nil, errors.New("go-pkcs12: string is not valid UTF-8")
+	}
 
 	ret := make([]byte, 0, 2*len(s)+2)
 
